@@ -112,11 +112,28 @@ EnumStep(e) ==
        /\ spaceok' = e.space_complete
        /\ UNCHANGED <<dvs, enc, alive, raw, outs, insts, reached, rowarchs, drift>>
 
+\* ---- a value set directly on a graph (C16): req and stored values in 1/1024 units, also for option indices ---------
+QInDomain(g, n, v) == IF g.nodes[n].disc THEN v % 1024 = 0 /\ v \div 1024 >= 0 /\ v \div 1024 < g.nodes[n].k
+                      ELSE v >= g.nodes[n].lo /\ v <= g.nodes[n].hi
+QClampOK(g, n, req, v) ==
+    IF g.nodes[n].disc
+    THEN LET fl == req \div 1024   cl == IF req % 1024 = 0 THEN fl ELSE fl + 1
+         IN v \in {1024 * Clamp(0, g.nodes[n].k - 1, fl), 1024 * Clamp(0, g.nodes[n].k - 1, cl)}
+    ELSE v = Clamp(g.nodes[n].lo, g.nodes[n].hi, req)
+SetDvStep(e) ==
+    LET pairs == {e.vals[i] : i \in DOMAIN e.vals}
+        c == IF e.err # "" THEN {"C16.direct_set_raised"}
+             ELSE (IF \A pr \in pairs : pr[1] \in DvNodeIds(G) => QInDomain(G, pr[1], pr[2]) THEN {} ELSE {"C16.direct_set_stores_value_outside_domain"})
+                  \cup (IF \E pr \in pairs : pr[1] = e.n /\ QClampOK(G, e.n, e.req, pr[2]) THEN {} ELSE {"C16.direct_set_not_clamped"})
+    IN /\ fails' = fails \cup Tag(c)
+       /\ UNCHANGED <<dvs, enc, alive, raw, outs, insts, reached, rows, rowarchs, drift, spaceok>>
+
 Step == /\ l <= N
         /\ LET e == Ev IN
              CASE e.e = "New" -> NewStep(e)
                [] e.e \in {"Dec", "DecRow"} -> DecStep(e)
                [] e.e = "Enum" -> EnumStep(e)
+               [] e.e = "SetDv" -> SetDvStep(e)
                [] OTHER -> /\ fails' = fails \cup Tag({"machinery.unknown_event"})
                            /\ UNCHANGED <<dvs, enc, alive, raw, outs, insts, reached, rows, rowarchs, drift, spaceok>>
         /\ l' = l + 1
